@@ -40,6 +40,8 @@ type Profile struct {
 }
 
 type Gen struct {
+	forceSign    bool // the next operation signs (scripted: a group holding an object of over 1 MiB)
+	bigBlob      bool // integrity scenarios: the next base image starts with an OCI blob of a megabyte or more
 	crowdedGroup bool // integrity scenarios: the next base image has one group of well over a hundred objects
 	r *RNG
 	p Profile
@@ -384,7 +386,7 @@ func (g *Gen) createOp() *Op {
 		n = cap + 1
 		g.count("reject:create-overfull")
 	}
-	g.bigFirst = false
+	g.bigFirst, g.forceSign = false, false
 	if g.p.MaxCap >= 3 && !crowded && n <= cap && r.Chance(1, 30) {
 		// an object of more than one 1 MiB block (and not a whole number of them) with small
 		// objects stored after it; the history then deletes it with zeroing
@@ -424,7 +426,11 @@ func (g *Gen) createOp() *Op {
 				if i == 0 {
 					di.Data = DataSpec{Gen: true, Len: 1<<20 + pick(r, []int{1, 4097, 300000}), Seed: r.U64()}
 				}
-				if r.Chance(1, 2) {
+				if g.p.Sign > 0 {
+					// … all in one group, which is then signed while the big object is still there
+					di.Opts = append(di.Opts, DIOpt{Kind: "group", N: 1})
+					g.forceSign = true
+				} else if r.Chance(1, 2) {
 					di.Opts = append(di.Opts, DIOpt{Kind: "group", N: pick(r, groupChoices)})
 				}
 			}
@@ -520,7 +526,12 @@ func (g *Gen) nextOp(f *sif.FileImage) *Op {
 	r := g.r
 	in := inspect(f)
 	reject := r.Intn(1000) < g.p.Rejects
-	if g.p.Sign > 0 && !g.noGrow && r.Intn(1000) < g.p.Sign && len(in.groups) > 0 {
+	forced := g.forceSign && len(in.groups) > 0
+	if forced {
+		g.forceSign = false
+		g.count("op:sign-group-with-megabyte-object")
+	}
+	if g.p.Sign > 0 && !g.noGrow && (forced || r.Intn(1000) < g.p.Sign) && len(in.groups) > 0 {
 		// ed25519 DSSE signatures are deterministic: the whole image stays reproducible
 		u := getUniverse()
 		k := 100
